@@ -121,5 +121,32 @@ def nt_start_time(inp):
     return shift({'kind': 'correlations'})
 
 
+def anti_axes(inp):
+    """compute_correlations(time_order='anti') with DIFFERENT specifications for times_a and times_b: the returned axes are
+    [times of A, times of B], the array is indexed [a, b], and entry [a, b] is what the multi-time routine computed for
+    (B at times_b[b], then A at times_a[a])"""
+    import oqupy
+    from replay.c03 import _ancilla_pt
+    sx, sy, sz = [oqupy.operators.sigma(c) for c in 'xyz']
+    env0 = np.array([[0.6, 0.1], [0.1, 0.4]])
+    pt, _ = _ancilla_pt(0.1, 6, 0.9 * np.kron(sz, sx), 0.3 * sz, env0)
+    sys_ = oqupy.System(0.4 * sx + 0.1 * sz)
+    A, B = sx + 0.3j * sy, sz + 0.2 * sx
+    rho0 = oqupy.operators.spin_dm('y+')
+    bad = []
+    for ta, tb, want_a, want_b in (([5, 3], (0.1, 0.3), [0.5, 0.3], [0.1, 0.2, 0.3]), (4, [1, 2, 3, 6], [0.4], [0.1, 0.2, 0.3, 0.6])):
+        times, corr = oqupy.compute_correlations(sys_, pt, A, B, ta, tb, time_order='anti', initial_state=rho0, progress_type='silent')
+        t_nt, c_nt = oqupy.compute_correlations_nt(sys_, pt, [B, A], [tb, ta], ['right', 'left'], initial_state=rho0, progress_type='silent')
+        same = lambda x, y: len(x) == len(y) and np.allclose(x, y)
+        ok_axes = len(times) == 2 and same(times[0], want_a) and same(times[1], want_b)
+        corr = np.array(corr)
+        ok_shape = corr.shape == (len(want_a), len(want_b))
+        ok_vals = ok_shape and np.allclose(np.nan_to_num(corr, nan=-7.0), np.nan_to_num(np.array(c_nt).T, nan=-7.0))
+        if not (ok_axes and ok_shape and ok_vals):
+            bad.append({'times_a': str(ta), 'times_b': str(tb), 'returned axes': [list(map(float, x)) for x in times], 'array shape': list(corr.shape),
+                        'axes as required': ok_axes, 'entries as required': bool(ok_vals)})
+    return {'violates': bool(bad), 'detail': bad}
+
+
 # thorough tier (bounded native sweeps): (function, inputs, obligation of the open finding it reproduces or None)
-THOROUGH = [('nt_alignment', {}, None), ('three_operators_same_step', {}, None)]
+THOROUGH = [('nt_alignment', {}, None), ('three_operators_same_step', {}, None), ('nt_start_time', {}, None), ('anti_axes', {}, None)]
